@@ -11,6 +11,7 @@ import rules_misc
 from analysis import Analysis
 from report import Result
 
+RULES = {}
 LEVEL = {'C01': 'other', 'C08': 'other', 'C18': 'other', 'C20': 'other', 'C11': 'other', 'C14': 'other', 'C15': 'other', 'C10': 'other', 'C12': 'other', 'C13': 'other', 'C04': 'other', 'C05': 'other', 'C16': 'other', 'C17': 'other', 'C02': 'other', 'C03': 'other', 'C06': 'proof', 'C07': 'proof', 'C09': 'proof', 'C19': 'proof'}
 _AN = {}
 
@@ -123,6 +124,8 @@ def c03(tier, repo):
 
 
 def _simple(pid, fn, explanation, assumptions, floors):
+    RULES[pid] = fn
+
     def run(tier, repo):
         res = Result(pid, LEVEL.get(pid, 'other'))
         an = analysis(repo)
@@ -254,8 +257,90 @@ c08 = _simple('C08', rules_misc.rule_c08,
               ['UB inside user key/value operations and overflow of now+ttl are outside the property', 'RI at entry'],
               {'R-ITER-TS': 100, 'R-FREE-SLOT': 100, 'R-RAII-ONLY': 10, 'R-CLAIM-DOMINATED': 60})
 
+RULES['C09'] = rules_seq.rule_c09
+RULES['C19'] = rules_seq.rule_noninterference
+RULES['C02'] = lambda an, res: (rules_seq.rule_c02(an, res), rules_seq.rule_c02_c03_shared_full_test(an, res, 'C02'))
+RULES['C03'] = lambda an, res: (rules_seq.rule_c03(an, res), rules_seq.rule_c02_c03_shared_full_test(an, res, 'C03'))
+
 CHECKS = {'C01': c01, 'C08': c08, 'C18': c18, 'C20': c20, 'C11': c11, 'C14': c14, 'C15': c15, 'C10': c10, 'C12': c12, 'C13': c13, 'C04': c04, 'C05': c05, 'C16': c16, 'C17': c17, 'C02': c02, 'C03': c03, 'C06': c06, 'C07': c07, 'C09': c09, 'C19': c19}
 
 
+ALT_INSTANCES = [dict(ts='no'), dict(ts='yes', K='std::string', V='unsigned long', alt=True), dict(ts='no', K='std::string', V='std::string')]
+RULE_FN = {}
+
+
 def run(pid, tier, repo, replay=None):
-    return CHECKS[pid](tier, repo)
+    res = CHECKS[pid](tier, repo)
+    if tier == 'thorough':
+        thorough_extras(pid, res, repo)
+    return res
+
+
+def thorough_extras(pid, res, repo):
+    """thorough tier: (1) the same rules on the other instantiations the build uses (thread_safe::no, other key/value types,
+    map-typed ranges) - parametricity premise P-PARAM says verdicts must agree; (2) self-test: every seeded breaking change that this
+    property's rules are recorded to catch (seeded/EXPECTED.json) must still be caught on a scratch copy of the current tree."""
+    import shutil
+    import subprocess
+    import tempfile
+    from report import Result
+    base_v = len(res.violations)
+    n_inst = 0
+    if pid not in ('C06', 'C07'):
+        for kw in ALT_INSTANCES:
+            try:
+                an = analysis(repo, **kw)
+            except Exception as e:      # front-end failure on an alternative instantiation
+                res.incomplete.append('alternative instantiation %r: %s' % (kw, str(e)[:300]))
+                continue
+            sub = Result(pid, res.level)
+            fn = RULES.get(pid)
+            if fn is None:
+                break
+            fn(an, sub)
+            n_inst += 1
+            res.obligations += sub.obligations
+            res.discharged += sub.discharged
+            for k, v in sub.rules.items():
+                r = res.rules.setdefault(k, [0, 0])
+                r[0] += v[0]
+                r[1] += v[1]
+            for v in sub.violations:
+                v.message += ' [instantiation %s]' % ','.join('%s=%s' % kv for kv in sorted(kw.items()))
+                res.violate(v)
+            res.incomplete += [x for x in an.incomplete if x not in res.incomplete]
+    res.counts['alternative_instantiations'] = n_inst
+    # ---- self-test against the seeded corpus
+    exp_path = os.path.join(os.path.dirname(os.path.dirname(os.path.abspath(__file__))), 'seeded', 'EXPECTED.json')
+    caught = missed = 0
+    if os.path.exists(exp_path):
+        exp = json.load(open(exp_path))
+        seeded_dir = os.path.dirname(exp_path)
+        for sid, props in sorted(exp.items()):
+            if pid not in props:
+                continue
+            patch = os.path.join(seeded_dir, sid, 'patch.diff')
+            tmp = tempfile.mkdtemp(prefix='capcheck-selftest-')
+            try:
+                shutil.copytree(os.path.join(repo, 'inc'), os.path.join(tmp, 'inc'))
+                p = subprocess.run(['patch', '-s', '-p1', '-i', patch], cwd=tmp, capture_output=True, text=True)
+                if p.returncode != 0:
+                    res.counts['selftest_patch_not_applicable'] = res.counts.get('selftest_patch_not_applicable', 0) + 1
+                    continue
+                _AN.pop((tmp, 'yes', ()), None)
+                sub = CHECKS[pid]('quick', tmp)
+                if sub.violations:
+                    caught += 1
+                else:
+                    missed += 1
+                    res.incomplete.append('SELF-TEST: seeded change %s is no longer reported by %s (the rule went blind)' % (sid, pid))
+            finally:
+                for k in [k for k in _AN if k[0] == tmp]:
+                    _AN.pop(k, None)
+                shutil.rmtree(tmp, ignore_errors=True)
+    res.counts['selftest_seeded_caught'] = caught
+    res.counts['selftest_seeded_missed'] = missed
+    res.ob('SELF-TEST', ok=True, n=caught)
+    res.explanation += (' THOROUGH: the same rules were also run on %d further instantiations (thread_safe::no, std::string keys, '
+                        'uint64 values, map-typed ranges) and %d seeded breaking changes recorded for this property were re-applied to a '
+                        'scratch copy of the current tree and had to be reported.' % (n_inst, caught))
